@@ -134,6 +134,14 @@ def fam_timing(seed, n_random, big):
                     sc["ops"] += [["kill"], ["wait"]]
                 i += 1
                 out.append(sc)
+    # time goes by while the library runs: every clock reading costs a little, so a deadline can fall between two
+    # readings of one loop iteration (durations from below one reading to a few)
+    for step in (40, 250):
+        for d in (0, 1, 30, 40, 41, 79, 80, 100, 240, 250, 251, 600, 1000, 5000, 1_000_000 + 17):
+            sc = {"id": "t%d" % i, "exit": {"k": "exited", "v": 5, "at": None}, "clock_step": step,
+                  "ops": [["wait_timeout", d], ["poll"], ["wait_timeout", d], ["kill"], ["wait"]], "drop": True, "overshoot": 0}
+            i += 1
+            out.append(sc)
     for d in huge:
         for e in (None, 0, 2 * S, d // 2, d - 1, d):
             if e is None and not big:
